@@ -370,6 +370,16 @@ class Array:
         self._datadir._write_jsondict(filename=self._arraydescrfilename,
                                       d=arrayinfo, overwrite=True)
 
+    def _sync_arrayinfo(self):
+        # The array on disk may have been changed through another Array
+        # object or by path (e.g. truncate_array, overwrite) since this
+        # object cached its shape and dtype.
+        self._check_arrayinfoconsistency()
+        d = self._arrayinfo
+        self._dtype = np.dtype(arrayinfotodtype(d))
+        self._shape = tuple(d['shape'])
+        self._size = product(d['shape'])
+
     def _update_len(self, lenincrease):
         newshape = list(self.shape)
         newshape[0] += lenincrease
@@ -485,6 +495,7 @@ class Array:
         if not hasattr(arrayiterable, '__iter__'):
             raise TypeError("'arrayiterable' is not iterable")
         self.check_arraywriteable()
+        self._sync_arrayinfo()
         arrayiterable = iter(arrayiterable)
         if np.prod(self._shape) == 0:
             # numpy cannot write to a fd of an empty file.
@@ -1208,6 +1219,7 @@ def truncate_array(a, index):
     except Exception:
         raise TypeError(f"'{a}' not recognized as a darr Array")
     a.check_arraywriteable()
+    a._sync_arrayinfo()
     if not isinstance(index, int):
         raise TypeError(f"'index' should be an int (is {type(index)})")
     with a._open_array() as (mmap, _):
